@@ -83,6 +83,59 @@ func checkC09(rc *RunCtx) {
 	if rc.Replay != nil && hasAnyPrefix(rc.Replay.Scenario, "commission(") {
 		return
 	}
+	// a reporter paid for two cycle-list/deposit aggregates in one block, with different powers in the two
+	for parity := 0; parity < 2; parity++ {
+		name := fmt.Sprintf("tbr-two-aggregates(%d)", parity)
+		if rc.Replay != nil && rc.Replay.Scenario != name {
+			continue
+		}
+		if rc.Replay == nil && !rc.Mine() {
+			continue
+		}
+		w := NewWorld(Config{})
+		c := StdSetup(w, true)
+		for i := 0; i < parity; i++ {
+			mustBlock(w, time.Second)
+		}
+		val := DepositValue(c.Payer.Acc.String(), bigMul(5_000_000, 1e12), bigMul(1_000, 1e12))
+		must(w, "dep RV1", MsgSubmit(c.RV1.Acc, c.Dep1, val))
+		must(w, "dep RV2", MsgSubmit(c.RV2.Acc, c.Dep1, val))
+		closeAt := w.Height() + 2000
+		mustBlock(w, time.Second)
+		must(w, "RV1 more stake", MsgDelegate(c.RV1.Acc, w.Vals[0], 200*TRB))
+		for w.Height() < closeAt-1 {
+			mustBlock(w, time.Second)
+		}
+		w.Trace = nil
+		e := &Explorer{RC: rc, Scenario: name, Monitors: mons}
+		cur := w
+		for i := 0; i < 3; i++ {
+			n, _ := e.Step(cur, ev1("Submit(RV1,cyc)", "submit", func(w *World) sdkMsg {
+				if q := w.CycleQuery(); q != nil {
+					return MsgSubmit(c.RV1.Acc, q, U256(5))
+				}
+				return nil
+			}))
+			cur = n
+			n, _ = e.Step(cur, ev1("Submit(R1,cyc)", "submit", func(w *World) sdkMsg {
+				if q := w.CycleQuery(); q != nil {
+					return MsgSubmit(c.R1.Acc, q, U256(6))
+				}
+				return nil
+			}))
+			cur = n
+			before := len(cur.Aggregates())
+			n, out := e.Step(cur, BlockEv(time.Second))
+			if out.Kind == "halt" {
+				break
+			}
+			cur = n
+			if len(cur.Aggregates())-before >= 2 {
+				rc.Count("blocks_with_two_cycle_aggregates", 1)
+			}
+		}
+		rc.Count("executions", 1)
+	}
 	depth := 4
 	if !rc.Quick() {
 		depth = 6
